@@ -14,6 +14,7 @@ From WebP Require Model.LosslessLib Model.BitReader Model.Huffman Proofs.Lossles
 From WebP Require Model.LosslessTransform Proofs.C04_bits Spec.PrefixCode
   Proofs.C01T_repr Proofs.C01T_green Proofs.C01T_color Proofs.C01T_index Proofs.C01T_palette Proofs.C01T_pred_spec Proofs.C01T_predictor Proofs.C01T_frame
   Proofs.C01_stream Proofs.C01_symbols Proofs.C01_codes Proofs.C01_pixlib Proofs.C01_pixels Proofs.C01_groups Proofs.C01_gspec Proofs.C01_final Proofs.C01_top.
+From WebP Require Spec.Container Model.ReadImage Proofs.Container_bytes Proofs.C01_top Proofs.ReadImage_base Proofs.ReadImage_container Proofs.ReadImage_vp8l Proofs.ReadImage_lossless Proofs.ReadImage_lossy Proofs.ReadImage_stillspec Proofs.ReadImage_wrap Proofs.ReadImage_safe Proofs.ReadImage_frame Proofs.ReadImage_anim.
 Import ListNotations.
 Open Scope Z_scope.
 
@@ -201,3 +202,30 @@ Module TS.
   Proof. exact predictor_transform_no_panic. Qed.
 
 End TS.
+
+(* ---------------- read_image / read_frame glue (Model/ReadImage.v) ---------------- *)
+Module RI.
+  Import Lib.Res Lib.ZBits Spec.Container Spec.YUV Model.ReadImage Proofs.ReadImage_base Proofs.ReadImage_container Proofs.ReadImage_vp8l Proofs.ReadImage_lossless Proofs.ReadImage_lossy Proofs.ReadImage_stillspec Proofs.ReadImage_wrap Proofs.ReadImage_safe Proofs.ReadImage_frame Proofs.ReadImage_anim.
+
+  (* read_image on a non-animated file: no panic for any file bytes and any buffer, given that the VP8 frame decoder does not panic *)
+  Theorem read_image_no_panic :
+    forall vp8 : list Z -> res (Z * Z * list Z * list Z * list Z),
+           vp8_safe vp8 ->
+           forall (file : list Z) (dec : Container_bytes.M.decoder) (buf : list Z),
+           all_bytes file = true ->
+           len file <= 9223372036854775807 ->
+           Container_bytes.M.new file = Ok dec ->
+           Container_bytes.M.is_animated dec = false -> Container_safety.safe (fst (read_image vp8 dec buf)).
+  Proof. exact ReadImage_safe.read_image_no_panic. Qed.
+
+  (* the ANMF header / size checks / three payload branches of read_frame: no panic for any file bytes *)
+  Theorem decode_frame_payload_no_panic :
+    forall vp8 : list Z -> res (Z * Z * list Z * list Z * list Z),
+           vp8_safe vp8 ->
+           forall (file : list Z) (dec : Container_bytes.M.decoder) (pos : Z),
+           all_bytes file = true ->
+           len file <= 9223372036854775807 ->
+           Container_bytes.M.new file = Ok dec -> 0 <= pos -> Container_safety.safe (fst (decode_frame_payload vp8 dec pos)).
+  Proof. exact ReadImage_safe.decode_frame_payload_no_panic. Qed.
+
+End RI.
